@@ -301,6 +301,17 @@ class PEval:
             return self.unknown("no body for " + path)
         return self.call_fn(fn, args, depth)
 
+    def _local_next(self, adt):
+        """the crate's own `Iterator::next` for an ADT (impls may carry generic / lifetime parameters), or None"""
+        key = ("next", adt)
+        if key not in self._impl_cache:
+            found = self.lib.fn("<%s as core::iter::traits::iterator::Iterator>::next" % adt)
+            if found is None:
+                pre = "<" + adt + "<"
+                found = next((f for k_, f in self.lib.fns.items() if k_.startswith(pre) and k_.endswith(" as core::iter::traits::iterator::Iterator>::next")), None)
+            self._impl_cache[key] = found if found is not None and thir.body_of(found) else None
+        return self._impl_cache[key]
+
     def call_method(self, trait, name, args, depth=0):
         """Call a trait method on an abstract receiver: the impl of the receiver's type, else the trait's provided body."""
         recv = deref(args[0]) if args else None
@@ -989,6 +1000,52 @@ class PEval:
                         if cand is not None and thir.body_of(cand):
                             local, path = cand, cand["path"]
                             break
+        if local is None and args and path.startswith("core::iter::traits::iterator::Iterator::") and isinstance(deref(args[0]), Struct) \
+                and not deref(args[0]).adt.startswith("#") and fname in ("find", "find_map", "position", "nth", "take", "any", "all", "skip", "last", "count") is not None:
+            # a provided Iterator method on a LOCAL iterator type: driven through that type's own `next`
+            recv_ = deref(args[0])
+            nxt_ = self._local_next(recv_.adt)
+            if nxt_ is not None and fname in ("find", "find_map", "position", "nth", "take"):
+                def pull_():
+                    return self.call_fn(nxt_, [recv_], depth + 1)
+                if fname == "take" and len(args) == 2 and isinstance(deref(args[1]), int):
+                    out_ = []
+                    for _ in range(deref(args[1])):
+                        r_ = pull_()
+                        if not (isinstance(r_, Enum) and r_.adt == OPTION):
+                            return self.unknown("next() of a local iterator")
+                        if r_.variant == "None":
+                            break
+                        out_.append(r_.fields.get("0", UNKNOWN))
+                    return Iter(out_)
+                if fname == "nth" and len(args) == 2 and isinstance(deref(args[1]), int):
+                    r_ = NONE
+                    for _ in range(deref(args[1]) + 1):
+                        r_ = pull_()
+                        if not (isinstance(r_, Enum) and r_.adt == OPTION) or r_.variant == "None":
+                            return r_ if isinstance(r_, Enum) else self.unknown("next() of a local iterator")
+                    return r_
+                if fname in ("find", "find_map", "position") and len(args) == 2:
+                    for i_ in range(20000):
+                        r_ = pull_()
+                        if not (isinstance(r_, Enum) and r_.adt == OPTION):
+                            return self.unknown("next() of a local iterator")
+                        if r_.variant == "None":
+                            return NONE
+                        x_ = r_.fields.get("0", UNKNOWN)
+                        v_ = self.apply(args[1], [x_], depth + 1)
+                        if fname == "find_map":
+                            if not (isinstance(v_, Enum) and v_.adt == OPTION):
+                                return self.unknown("find_map closure result")
+                            if v_.variant == "Some":
+                                return v_
+                            continue
+                        t_ = self.truth(v_)
+                        if t_ is UNKNOWN:
+                            return UNKNOWN
+                        if t_:
+                            return some(x_ if fname == "find" else i_)
+                    raise OutOfFuel()
         if local is not None and args and isinstance(deref(args[0]), (Iter, PyMap, PySet)) and (" as " in path):
             local = None  # a trait method on one of the evaluator's own container objects: use the std model
         rargs = args
